@@ -61,6 +61,23 @@ def run_interleaved(chk, histories, relevant, label="exp2", flavor="plain"):
     return merged
 
 
+def run_many_blocks(chk, relevant, ns=(65535, 65536, 65537, 70001), label="many"):
+    """Outputs that receive more than 2^16 blocks (block size 1): counters of the exporter that are narrower than the
+    number of blocks an output may hold would wrap here."""
+    work = vlib.scratch(label)
+    exe = vlib.build_driver("exp_driver", "plain")
+    files = [work / f"many.{i}.ndjson" for i in range(len(ns))]
+    cmds = [[exe, "many", n, files[i]] for i, n in enumerate(ns)]
+    for cmd, rc, out in vlib.run_parallel(cmds, timeout=1200, env={"VERIF_TMP": str(work)}):
+        if rc != 0:
+            raise vlib.Infra(f"exp_driver many failed rc={rc}: {out}")
+    merged = vlib.validate_traces("TraceExporter", files, constants={"XBug": "\"none\""}, timeout=600, label=label + "tv")
+    chk.add_traces(merged, relevant=relevant)
+    chk.extra["outputs_with_more_than_65535_blocks"] = len([n for n in ns if n > 65535])
+    shutil.rmtree(work, ignore_errors=True)
+    return merged
+
+
 def rng_for(chk, salt):
     return random.Random(chk.seed * 7919 + salt)
 
